@@ -172,6 +172,7 @@ theorem repaired_on_the_same_inputs :
     counterOf b2 2 [1, 10] = 1 ∧ hasRoute b3.routes [1, 10] 2 = false ∧
     cnt c2.state 2 [1, 20] = 1 ∧ hasRoute c2.routes [1, 20] 2 = true := by decide
 
+/-- the full statement, without the flag hypothesis: routing follows the state after EVERY step -/
 def RoutingAfterEveryStep : Prop :=
   ∀ (b : Broker), BInv b → ∀ (p : PeerName) (now : Int), RoutingFollowsState (offline b p now).1
 
@@ -182,6 +183,18 @@ theorem offline_refuted :
     let r := offline b1 2 9
     r.2 = ["C05.offline-local-delete"] ∧ cnt r.1.state 2 [1, 10] = 1 ∧ hasRoute r.1.routes [1, 10] 2 = false ∧
     get r.1.state (encKey 1 7 [1, 10]) = ⟨0, 9, []⟩ := by decide
+
+/-- … hence the unconditional statement is false of the code: peer garbage collection breaks it -/
+theorem routing_after_every_step_refuted : ¬ RoutingAfterEveryStep := by
+  intro h
+  have hb0 : BInv b0 := binv_init 1 (by decide)
+  have hb1 : BInv (mergeStep false b0 [(kx, ⟨5, 0, []⟩)]).broker := by
+    apply binv_mergeOrd _ b0 _ hb0 (nodup_singleton _ _)
+    · simp
+    · decide
+  have := (h _ hb1 2 9 2 (by decide) [1, 10]).2
+  revert this
+  decide
 
 /-- finding `C05.online-bypasses-counters`: the peer object is created again by a later update,
 the old entry is routed without being counted, its removal finds no counter: the route stays -/
